@@ -201,3 +201,67 @@ func VerifH_C13_stream_two_messages() {
 	expectMessage(rc, k2, d2, "second streamed message")
 	expectEnd(rc, "stream")
 }
+
+// sharedPool: a last-in-first-out buffer pool shared by several connections (the shape of
+// sync.Pool on one P): Get returns the buffer put back most recently.
+type sharedPool struct{ free []interface{} }
+
+func (p *sharedPool) Get() interface{} {
+	if n := len(p.free); n > 0 {
+		v := p.free[n-1]
+		p.free = p.free[:n-1]
+		return v
+	}
+	return nil
+}
+func (p *sharedPool) Put(v interface{}) { p.free = append(p.free, v) }
+
+// VerifH_C13_shared_pool_overlap: two connections created with the same write-buffer pool.
+// Connection A's stream is slow (flow control): its Write has been entered but the stream
+// has not taken the bytes yet when connection B, on another goroutine, writes a message of
+// its own.  Each peer must still read exactly the message written to its own connection,
+// on every write path that ends a message (one-shot, streaming writer, reader-fed writer).
+func VerifH_C13_shared_pool_overlap() {
+	pool := &sharedPool{}
+	w := [2]int{4, 1}[verif.Choose(2)]
+	sa, sb := &fakeStream{failAt: -1}, &fakeStream{failAt: -1}
+	server := verif.Bool()
+	ca := NewConn(nil, sa, server, 0, w, pool, nil, nil)
+	cb := NewConn(nil, sb, server, 0, w, pool, nil, nil)
+	ka, kb := verif.Choose(2)+1, verif.Choose(2)+1
+	da := verif.BytesN(verif.Int(0, w+3))
+	db := verif.BytesN(verif.Int(0, w+3))
+	wroteB := false
+	sa.onWrite = func() { verif.Yield("stream A: write entered, bytes not taken yet") }
+	verif.Event("connection B writes a message meanwhile", func() {
+		wroteB = true
+		verif.Assert(cb.WriteMessage(kb, db) == nil, "write on B")
+	})
+	verif.InjectBudget(1)
+	switch verif.Choose(3) {
+	case 0:
+		verif.Assert(ca.WriteMessage(ka, da) == nil, "one-shot write on A")
+	case 1:
+		wr, err := ca.NextWriter(ka)
+		verif.Assert(err == nil, "NextWriter on A")
+		k := verif.Concretize(verif.Int(0, len(da)))
+		wr.Write(da[:k])
+		wr.Write(da[k:])
+		verif.Assert(wr.Close() == nil, "Close on A")
+	case 2:
+		wr, err := ca.NextWriter(ka)
+		verif.Assert(err == nil, "NextWriter on A")
+		src := &fakeReader{data: da, fail: -1, chunk: 2}
+		io.Copy(wr, src)
+		verif.Assert(wr.Close() == nil, "Close on A")
+	}
+	verif.InjectBudget(0)
+	ra, _ := newReaderConn(sa.wire(), 1)
+	expectMessage(ra, ka, da, "A's message")
+	expectEnd(ra, "A's stream")
+	if wroteB {
+		rb, _ := newReaderConn(sb.wire(), 1)
+		expectMessage(rb, kb, db, "B's message")
+		expectEnd(rb, "B's stream")
+	}
+}
